@@ -14,6 +14,10 @@ Definition uniq_lt (l : list Z) (m : Z) : Prop := NoDup l /\ Forall (fun x => 0 
 Definition aligned (g : sgroup) : Prop :=
   sg_del g = false ->
   sg_start g < sg_end g /\ 0 < sg_dur g /\ sg_end g <= cell_end (trunc (sg_start g) (sg_dur g)) (sg_dur g).
+(* the same of any group, deleted or not: every group the commands create is born this way and spans never change *)
+Definition aligned_any (g : sgroup) : Prop :=
+  sg_start g < sg_end g /\ 0 < sg_dur g /\ sg_end g <= cell_end (trunc (sg_start g) (sg_dur g)) (sg_dur g).
+Definition all_aligned (c : cat) : Prop := forall p g, In p (pols c) -> In g (rp_sgs p) -> aligned_any g.
 (* two live groups of one engine type do not overlap *)
 Definition disjoint2 (a b : sgroup) : Prop :=
   sg_del a = false -> sg_del b = false -> sg_eng a = sg_eng b -> sg_end a <= sg_start b \/ sg_end b <= sg_start a.
@@ -46,8 +50,16 @@ Record wf (c : cat) : Prop := {
   wf_def : Forall (default_ok c) (dbs c);
   wf_ptv : Forall (fun e => Z.of_nat (length (snd e)) = ptnum c) (ptview c);
   wf_nonneg : Forall (fun x => 0 <= x) [max_sg c; max_sh c; max_ig c; max_ix c; max_mst c; max_node c; ptnum c];
-  wf_dur : Forall (fun p => 0 < rp_sgdur p) (pols c)   (* shard-group durations are normalised to at least one hour *)
+  wf_dur : Forall (fun p => 0 < rp_sgdur p) (pols c);  (* shard-group durations are normalised to at least one hour *)
+  wf_nm : Forall (fun p => rp_nm p = rp_name p) (pols c)   (* a policy is stored under its name *)
 }.
+
+(* the C14 invariant as a clause about the catalogue: the index group holding a shard's index does not end before the shard's
+   own group (an index must not expire before a shard that uses it) *)
+Definition covered_pol (p : policy) : Prop :=
+  forall g s ig i, In g (rp_sgs p) -> In s (sg_shards g) -> In ig (rp_igs p) -> In i (ig_indexes ig) -> ix_id i = sh_index s ->
+    sg_end g <= ig_end ig.
+Definition covered (c : cat) : Prop := Forall covered_pol (pols c).
 
 (* ---- reflection ---- *)
 Lemma existsb_eqb_In : forall x l, existsb (Z.eqb x) l = true <-> In x l.
@@ -189,7 +201,22 @@ Proof.
   rewrite (forallb_Forall _ (fun e => Z.of_nat (length (snd e)) = ptnum c)) by (intro; apply Z.eqb_eq).
   rewrite (forallb_Forall _ (fun x => 0 <= x)) by (intro; lia).
   rewrite (forallb_Forall _ (fun p => 0 < rp_sgdur p)) by (intro; lia).
+  rewrite (forallb_Forall _ (fun p => rp_nm p = rp_name p)) by (intro; apply Z.eqb_eq).
   split.
   - intros H. decompose [and] H. constructor; assumption.
-  - intros [? ? ? ? ? ? ? ? ? ? ? ? ? ? ?]. tauto.
+  - intros [? ? ? ? ? ? ? ? ? ? ? ? ? ? ? ?]. tauto.
 Qed.
+
+Lemma covered_pol_b_iff : forall p, covered_pol_b p = true <-> covered_pol p.
+Proof.
+  intros p. unfold covered_pol_b, covered_pol, ig_of. rewrite forallb_forall. split.
+  - intros H g s ig i Hg Hs Hig Hi E. specialize (H g Hg). rewrite forallb_forall in H. specialize (H s Hs).
+    rewrite forallb_forall in H. assert (X : (sg_end g <=? ig_end ig) = true); [|lia].
+    apply H. apply filter_In. split; [exact Hig|]. apply existsb_exists. exists i. split; [exact Hi | lia].
+  - intros H g Hg. rewrite forallb_forall. intros s Hs. rewrite forallb_forall. intros ig Hig.
+    apply filter_In in Hig. destruct Hig as [Hig Hex]. apply existsb_exists in Hex. destruct Hex as [i [Hi E]].
+    assert (sg_end g <= ig_end ig); [|lia]. apply (H g s ig i); auto. lia.
+Qed.
+
+Lemma covered_b_iff : forall c, covered_b c = true <-> covered c.
+Proof. intros c. unfold covered_b, covered. apply forallb_Forall. apply covered_pol_b_iff. Qed.
